@@ -13,8 +13,9 @@ class C19(Prop):
             "figures (nb_pages, nb_crawled_pages, nb_tail_nodes, nb_links). non-trivial = the history holds a stem of 75..148 bytes or an exact multiple of 74 AND a re-submission.")
     MODES = ("raw", "mixed", "url")
     LONG_BIAS = 0.5
+    BACKENDS = ("file", "file", "memory")
     WEIGHTS = {"page": 4, "pages": 3, "links": 3, "batch": 3, "again": 4, "create": 2, "delete": 1, "addprefix": 2,
-               "rmprefix": 1, "move": 1, "rule": 2, "unrule": 1, "reopen": 1}
+               "rmprefix": 1, "move": 1, "rule": 2, "unrule": 1, "reopen": 1, "clear": 1}
     QUICK = (40, 18)
     THOROUGH = (200, 40)
     TECHNIQUE = ("stateful property-based testing (Hypothesis) against a ledger oracle; thorough tier adds coverage-guided "
